@@ -175,23 +175,19 @@ def run(ctx, chk):
     R3 = chk.rule("R-WIRING", "OpConstant/OpSpecConstant literals are sized by the instruction's result type, OpSwitch case literals by the "
                   "id of its first operand (the selector), each case being literal then label id; the tracker is updated for every "
                   "parsed instruction before it is delivered")
-    po = parserx.parse_operands(ctx)
+    from . import quantx
     WP = raw.where("parse_operands", "Parser")
-    a1 = show(po["intercepted"].get("LiteralContextDependentNumber", ["?"]))
-    good = re.search(r"let (\w+) = rtype\.expect\(", a1) is not None
-    if good:
-        v = re.search(r"let (\w+) = rtype\.expect\(", a1).group(1)
-        good = "coperands.push(self.parse_literal(%s)?)" % v in a1
-    chk.check(R3, bool(good), "context-dependent-number<-result-type", "arm is %s" % a1[:200], WP)
-    a2 = show(po["intercepted"].get("PairLiteralIntegerIdRef", ["?"]))
-    m = re.search(r"let (\w+) = match coperands\[0\] \{ dr::Operand::IdRef\((\w+)\) => (\w+),", a2)
-    good = m is not None and m.group(2) == m.group(3)
-    if good:
-        sel = m.group(1)
-        i1 = a2.find("coperands.push(self.parse_literal(%s)?)" % sel)
-        i2 = a2.find("coperands.push(dr::Operand::IdRef(self.decoder.id()?))")
-        good = 0 <= i1 < i2
-    chk.check(R3, bool(good), "switch-literal<-selector", "arm is %s" % a2[:260], WP)
+    try:
+        spx = quantx.special(ctx)
+        c = spx["LiteralContextDependentNumber"]
+        chk.check(R3, c["consumed"] == [("id",), ("id",), ("literal", ("sym", "id1"))] and c["result"][0] == "ok", "context-dependent-number<-result-type",
+                  "for a Constant row parse_operands consumes %s (expected: result type id, result id, then a literal sized by the result type id)" % c["consumed"], WP)
+        c = spx["PairLiteralIntegerIdRef"]
+        sel = ("sym", "w1")
+        chk.check(R3, c["consumed"] == [("operand", "IdRef"), ("operand", "IdRef"), ("literal", sel), ("id",), ("literal", sel), ("id",)] and c["result"][0] == "ok",
+                  "switch-literal<-selector", "for a Switch row parse_operands consumes %s (expected: selector, default, then (literal sized by the selector id, label id) pairs)" % c["consumed"], WP)
+    except Anchor as ex:
+        chk.bad(R3, "parse_operands", "parse_operands is not analysable: %s" % ex, WP, key="C10:parse_operands-shape")
     fn = mir.one("binary::parser::Parser::parse")
     g = Cfg(fn)
     T = [i for i in g.calls("track") if (g.blocks[i]["t"].get("rs") or "").endswith("TypeTracker")]
